@@ -8,6 +8,7 @@ package sim
 
 import (
 	"encoding/binary"
+	"fmt"
 	"math/big"
 
 	"github.com/dominant-strategies/go-quai/common"
@@ -63,6 +64,22 @@ func LabFactoryInit() []byte {
 	r.DataToMem(r.Data(child, "child init"), 0)
 	r.Push(0).Op(vm.CALLDATALOAD) // salt
 	r.Push(uint64(len(child))).Push(0).Op(vm.CALLVALUE, vm.CREATE2, vm.POP, vm.STOP)
+	rt := r.Assemble().Code
+	a := evmgen.NewAsm()
+	a.DataToMem(a.Data(rt, "runtime"), 0)
+	a.Push(uint64(len(rt))).Push(0).Op(vm.RETURN)
+	return a.Assemble().Code
+}
+
+// LabConverterInit: the converter's runtime converts three quarters of the value it is called
+// with to Qi for the 20-byte Qi address given as calldata (CONVERT opcode, 100000 destination gas;
+// the rest of the value pays the prepaid destination fee, the remainder stays on the contract).
+func LabConverterInit() []byte {
+	r := evmgen.NewAsm()
+	r.Push(100000)
+	r.Push(4).Push(3).Op(vm.CALLVALUE, vm.MUL, vm.DIV) // value*3/4
+	r.Push(96).Push(0).Op(vm.CALLDATALOAD, vm.SWAP1, vm.SHR)
+	r.Push(0).Op(vm.CONVERT, vm.POP, vm.STOP)
 	rt := r.Assemble().Code
 	a := evmgen.NewAsm()
 	a.DataToMem(a.Data(rt, "runtime"), 0)
@@ -195,6 +212,31 @@ func (a *Actor) submitLab(t *rapid.T, kind string) {
 		if send(tx, "labfactory at "+addr.Hex()[:10], "labfactory") {
 			a.Factory = &addr
 		}
+	case "labconverter":
+		if a.Converter != nil {
+			return
+		}
+		tx, addr, err := DeployTx(from, nonce, LabConverterInit(), big.NewInt(0), 2_000_000, gp)
+		if err != nil {
+			return
+		}
+		if send(tx, "labconverter at "+addr.Hex()[:10], "labconverter") {
+			a.Converter = &addr
+		}
+	case "labconvert":
+		// a conversion whose origin is a contract (CONVERT opcode), not an account
+		if a.Converter == nil {
+			return
+		}
+		to := a.qi[rapid.IntRange(0, 3).Draw(t, "labtoqi")].Addr
+		qits := rapid.SampledFrom([]int64{700, 12000}).Draw(t, "labqits")
+		value := new(big.Int).Mul(big.NewInt(qits), big.NewInt(4e18))
+		al := types.AccessList{{Address: *a.Converter}}
+		tx, err := QuaiTx(from, nonce, a.Converter, value, 600_000, gp, to.Bytes(), al)
+		if err != nil {
+			return
+		}
+		send(tx, fmt.Sprintf("labconvert %d qits-worth via contract to %s", qits, to.Hex()[:10]), "labconvert")
 	case "labspawn":
 		// (re-)create a factory child; on an address whose contract self-destructed earlier - in this
 		// block or a previous one - this is a re-creation
